@@ -1,7 +1,7 @@
 (* Lmmx/Examples.v — concrete closure programs evaluated by the reference semantics (the corpus cases of the same names
    in corpus/lmmx/cases.json run on the real backends). *)
 From Coq Require Import List ZArith NArith Bool.
-From Mimium Require Import Lmmm.Syntax Lmmm.Ref Lmmm.Examples Lmmx.Syntax Lmmx.Ref Lmmx.Conserv Lmmx.ConservProg.
+From Mimium Require Import Lmmm.Syntax Lmmm.Ref Lmmm.Examples Lmmx.Syntax Lmmx.Ref Lmmx.Conserv Lmmx.ConservProg Lmmx.MatchSelf.
 Import ListNotations.
 Local Open Scope N_scope.
 
@@ -77,3 +77,55 @@ Proof. vm_compute. split; reflexivity. Qed.
 (* too little fuel is reported as such, never as a wrong answer *)
 Lemma ex_counter_fuel : xrun 2 ex_counter rows4 = OutOfFuel.
 Proof. vm_compute. reflexivity. Qed.
+
+(* ---- sum types, match, wide self (the corpus cases of the same names run on the real backends) ---- *)
+(* type T = K0((float, float)) | K1(float) | K2        (self of f1 starts as K0((0, 0)))
+   fn f1(x) -> T { let p = match self { K0((a, b)) => a * 7 + b, K1(a) => a, K2 => 1000 }
+                   if (x > 2) K2 else if (x > 0) K1(p + x) else K0((p, x + 1)) }
+   fn dsp(){ match f1(now) { K0((a, b)) => a * 7 + b, K1(a) => a, K2 => 1000 } } *)
+Definition sh_T : shape := SSum 50 [Some (STup [SNum; SNum]); Some SNum; None].
+Definition red_T (e : xexpr) : xexpr :=
+  XMatch e [(MCon 0 (Some (PTup [PVar 4; PVar 5])), XBin OAdd (XBin OMul (XVar 4) (XLit 7)) (XVar 5));
+            (MCon 1 (Some (PVar 4)), XVar 4); (MCon 2 None, XLit 1000)].
+Definition ex_sum_self : xprogram :=
+  mkXProg [GFun 1 [(2, None)]
+             (XLet (PVar 3) (red_T (XSelfS sh_T))
+                (XIf (XBin OGt (XVar 2) (XLit 2)) (XCon 50 2 None)
+                   (XIf (XBin OGt (XVar 2) (XLit 0)) (XCon 50 1 (Some (XBin OAdd (XVar 3) (XVar 2))))
+                      (XCon 50 0 (Some (XTuple [XVar 3; XBin OAdd (XVar 2) (XLit 1)]))))))]
+          [] [] [red_T (XApp (XVar 1) [XNow])].
+Lemma ex_sum_self_run : xrun 20 ex_sum_self rows4 = Ok [[1]; [2]; [4]; [1000]]%Z.
+Proof. vm_compute. reflexivity. Qed.
+
+(* fn f1(x){ let (a, b) = self  (a + x, b + a) }   fn dsp(){ let (p, q) = f1(1)  p * 100 + q } *)
+Definition ex_tuple_self : xprogram :=
+  mkXProg [GFun 1 [(2, None)] (XLet (PTup [PVar 3; PVar 4]) (XSelfS (STup [SNum; SNum]))
+                                 (XTuple [XBin OAdd (XVar 3) (XVar 2); XBin OAdd (XVar 4) (XVar 3)]))]
+          [] [] [XLet (PTup [PVar 5; PVar 6]) (XApp (XVar 1) [XLit 1]) (XBin OAdd (XBin OMul (XVar 5) (XLit 100)) (XVar 6))].
+Lemma ex_tuple_self_run : xrun 20 ex_tuple_self rows4 = Ok [[100]; [201]; [303]; [406]]%Z.
+Proof. vm_compute. reflexivity. Qed.
+
+(* fn cnt(i){ self + i }   fn dsp(){ match (now - 3 * (now > 2)) { 0 => cnt(1), 1 => 200, _ => cnt(10) } }: each arm keeps its state *)
+Definition ex_match_arm_state : xprogram :=
+  mkXProg [GFun 1 [(2, None)] (XBin OAdd XSelf (XVar 2))] [] []
+    [XMatch (XBin OSub XNow (XBin OMul (XLit 3) (XBin OGt XNow (XLit 2))))
+       [(MLit 0, XApp (XVar 1) [XLit 1]); (MLit 1, XLit 200); (MWild, XApp (XVar 1) [XLit 10])]].
+Lemma ex_match_arm_state_run :
+  xrun 20 ex_match_arm_state [[]; []; []; []; []; []] = Ok [[1]; [200]; [10]; [2]; [200]; [20]]%Z.
+Proof. vm_compute. reflexivity. Qed.
+
+(* first-match order: the reference takes the `_` arm (finding M1: the real backends give 10, 20, 30) *)
+Definition ex_match_wild_first : xprogram :=
+  mkXProg [] [] [] [XMatch XNow [(MWild, XLit 30); (MLit 0, XLit 10); (MLit 1, XLit 20)]].
+Lemma ex_match_wild_first_run : xrun 20 ex_match_wild_first [[]; []; []] = Ok [[30]; [30]; [30]]%Z.
+Proof. vm_compute. reflexivity. Qed.
+
+(* a match without a matching arm is stuck, not a wrong answer *)
+Lemma ex_no_arm_stuck : xrun 20 (mkXProg [] [] [] [XMatch XNow [(MLit 0, XLit 10)]]) [[]; []] = Stuck E_NOMATCH.
+Proof. vm_compute. reflexivity. Qed.
+
+(* encoding / decoding of the feedback cell *)
+Local Close Scope N_scope.
+Lemma ex_dec_enc : Lmmx.Syntax.dec sh_T (Lmmx.Syntax.enc (VCon 0 (VTup [VNum 5; VNum 6]))) = VCon 0 (VTup [VNum 5; VNum 6]) /\
+                   has_shape sh_T (VCon 0 (VTup [VNum 5; VNum 6])) /\ Lmmx.Syntax.dec sh_T st0 = VCon 0 (VTup [VNum 0; VNum 0]).
+Proof. vm_compute. repeat split. Qed.
